@@ -45,7 +45,8 @@ def scenario_keys(ctx):
     ra_one = [("file_scheme", "arg"), ("file_scheme_collide", "arg"), ("dir_scheme", "none"), ("dir_scheme", "arg"),
               ("dir_collide", "none"), ("dir_nondir", "none"), ("dir_nondir", "arg"), ("dir_missing", "arg"),
               ("ostree", "arg"), ("ostree", "setting"), ("ostree_missing_ref", "arg"), ("ostree_missing_ref", "setting"),
-              ("ostree_then_file_missing", "arg"), ("mixed", "arg"), ("mixed", "none"), ("missing_path", "arg"),
+              ("ostree_then_file_missing", "arg"), ("ostree_empty_ref", "arg"), ("ostree_abs_ref", "setting"),
+              ("ostree_dotdot_ref", "arg"), ("mixed", "arg"), ("mixed", "none"), ("missing_path", "arg"),
               ("first_missing_then_collide", "arg"), ("first_missing_then_collide", "setting"), ("dot", "setting"),
               ("empty", "arg"), ("lstrip_ok", "arg"), ("lstrip_overlap", "arg")]
     for arts, bp in ra_one:
